@@ -108,6 +108,7 @@ struct Peer {
 	size_t out_parsed = 0;
 	int closed_event_gen = -1;
 	bool closed_event_gen_fired = false;
+	int dead_gen = -1; // connection on which every further write fails (sticky send fault)
 	int frag_gen = -1; // connection on which a PDU was abandoned half-way after a failed write
 	Bytes cur_pdu_full, frag_full;
 	size_t frag_written = 0;
